@@ -40,6 +40,7 @@ type Contract struct {
 	File           string
 	PkgShort       string
 	SafeOnly       bool
+	Entry          bool // inputs are adversarial modulo requires: a replayed panic is a defect of the system
 }
 
 type SpecFunc struct {
@@ -70,11 +71,20 @@ type ContractSet struct {
 	Unbound   []string
 	FlagSets  map[string]int // type key -> number of bits
 	MethodNonNil map[string]bool
+	TypeInvs     []*TypeInv
+	ElemsNonNil  map[string]bool // type keys whose slice elements are never nil
+	typeInvByKey map[string][]*TypeInv
+}
+
+type TypeInv struct {
+	TypeText string
+	Var      string
+	Clause   *Clause
 }
 
 var clauseKeywords = map[string]bool{"requires": true, "ensures": true, "invariant": true, "decreases": true, "property": true,
 	"pure": true, "assigns": true, "trusted": true, "noinline": true, "inline": true, "func": true, "sweep": true, "immutable": true, "spec": true,
-	"axiom": true, "flagset": true, "safeonly": true, "immutable-family": true, "method-pre": true}
+	"axiom": true, "flagset": true, "safeonly": true, "immutable-family": true, "method-pre": true, "entry": true, "type-invariant": true, "elems-nonnil": true}
 
 var contractRoot = "" // directory that contract file paths are relative to (repo or mirror)
 
@@ -126,7 +136,20 @@ func (w *World) LoadContracts() error {
 	for k, c := range cs.ByKey {
 		fn := w.Funcs[k]
 		if fn == nil {
-			cs.Unbound = append(cs.Unbound, k)
+			// a contract on a generic function applies to each of its instances
+			found := false
+			for fk, f := range w.Funcs {
+				if strings.HasPrefix(fk, k+"[") {
+					cc := *c
+					cc.Fn = f
+					cc.Key = fk
+					cs.ByFunc[f] = &cc
+					found = true
+				}
+			}
+			if !found {
+				cs.Unbound = append(cs.Unbound, k)
+			}
 			continue
 		}
 		c.Fn = fn
@@ -270,6 +293,28 @@ func (w *World) parseContractFile(cs *ContractSet, file string) error {
 			cur.Inline = true
 		case "safeonly":
 			cur.SafeOnly = true
+		case "entry":
+			cur.Entry = true
+		case "type-invariant":
+			// type-invariant <type> <var> :: <expr>
+			k := strings.Index(rest, "::")
+			if k < 0 || len(strings.Fields(rest[:k])) != 2 {
+				return fmt.Errorf("%s:%d: type-invariant wants '<type> <var> :: <expr>'", file, rl.line)
+			}
+			hd := strings.Fields(rest[:k])
+			c, err := mk("type-invariant", strings.TrimSpace(rest[k+2:]))
+			if err != nil {
+				return err
+			}
+			c.Name = hd[1]
+			cs.TypeInvs = append(cs.TypeInvs, &TypeInv{TypeText: hd[0], Var: hd[1], Clause: c})
+		case "elems-nonnil":
+			if cs.ElemsNonNil == nil {
+				cs.ElemsNonNil = map[string]bool{}
+			}
+			for _, f := range strings.Fields(rest) {
+				cs.ElemsNonNil[f] = true
+			}
 		case "assigns":
 			if rest == "nothing" {
 				cur.AssignsNothing = true
